@@ -16,6 +16,7 @@ import (
 	"math/rand/v2"
 	"os"
 	"runtime/debug"
+	"strconv"
 	"testing"
 	"time"
 
@@ -26,7 +27,11 @@ import (
 
 func TestC15(t *testing.T) {
 	logger.Disable()
-	debug.SetGCPercent(300) // allocation-heavy big.Int work; the heap stays small
+	gcp := 300 // allocation-heavy big.Int work; the live heap stays small
+	if v, err := strconv.Atoi(os.Getenv("VERIF_C15_GCPERCENT")); err == nil {
+		gcp = v
+	}
+	debug.SetGCPercent(gcp)
 	r := vcore.Start(t, "C15")
 	m := &monitor{r: r}
 
@@ -157,9 +162,15 @@ func binEngineUnits(m *monitor) []func() {
 		} else if kind == "sha3-256" {
 			small = r.Pick(3, 5)
 		}
-		msg := makeMsg(rng, small, "random")
-		for _, c := range compositions(small) {
-			jobs = append(jobs, binJob{kind: kind, msg: msg, content: "random", chunks: c})
+		smalls := []int{small}
+		if r.Thorough() {
+			smalls = []int{1, 3, small} // every chunking of three message lengths
+		}
+		for _, n := range smalls {
+			msg := makeMsg(rng, n, "random")
+			for _, c := range compositions(n) {
+				jobs = append(jobs, binJob{kind: kind, msg: msg, content: "random", chunks: c})
+			}
 		}
 		bigs := []int{B + 1}
 		if r.Thorough() {
